@@ -67,13 +67,13 @@ def run(ctx):
     ctx.ob('SIZE-GATE', 'record-serialize', oks, se.where(), 'DhtRecord::serialize returns Ok only for encodings of at most 512 bytes: %s' % oks)
     hr = prog.async_body(ENG + '::handle_request')
     okc = False
+    from props import c02 as C02
     for cs in hr.calls(r'::find_closest_nodes$'):
-        m = hr.expr(cs.args[2]).mentions_call(r'::min$')
-        if m is not None and any(_cv(prog, x) is not None and _cv(prog, x) <= 20 for x in m.b):
-            okc = True
+        ce = hr.expr(cs.args[2])
+        if any(x.k == 'downcast' and x.b == 'FindNode' for x in ce.walk()) or C02._count_class(prog, hr, ce, 0)[0] != 'local':
+            okc = C02.bounded_by(prog, hr, ce, 20)
     ctx.ob('SIZE-GATE', 'find-node-count-capped', okc, hr.where(), 'FindNode count is min(count, <=20) before the table lookup: %s' % okc)
     # every other place where the count of a decoded FindNode reaches the routing-table lookup (closed world, shared with C02)
-    from props import c02 as C02
     seen_sites = set()
     for needle in ('find_nodes', 'find_closest_nodes'):
         for b in prog.bodies.containing(needle):
